@@ -323,6 +323,28 @@ def numpy_length_family(ctx, tier):
                     ctx.v("C06", "after-filtered:raised", base, repr(e))
 
 
+def reindexed_merge_family(ctx, tier):
+    """reindexed with mappings that send THREE or four values to one: every array of shape (6,) and (3, 2) over four values (the runs of the
+    merged values interleave in every order), with and without copy, the common value merged or not."""
+    mappings = [{1: 7, 2: 7, 3: 7}, {0: 7, 1: 7, 2: 7}, {0: 9, 1: 9, 2: 9, 3: 9}, {1: 2, 3: 2}, {3: 0, 2: 0, 1: 0}]
+    for shape in ((6,), (3, 2)) if tier == "quick" else ((6,), (7,), (3, 2), (4, 2)):
+        for d in M.all_arrays(shape, range(4)):
+            if len(set(d.flat)) < 3:
+                continue
+            for common in (0, 3):
+                for mi, mp in enumerate(mappings):
+                    exp = numpy.vectorize(lambda x: mp.get(int(x), int(x)), otypes=[numpy.int64])(d)
+                    for copy, shift in ((False, True), (True, False)):
+                        # shift=False keeps the (mapped) common value, so the merged value keeps its explicit entry however frequent it is
+                        opd = {"op": "reindexed", "big": "reindexed-merge", "array": d.tolist(), "common": common, "mapping": {str(k): v for k, v in mp.items()}, "copy": copy, "shift": shift}
+                        try:
+                            r = M.build_index(d, common).reindexed(dict(mp), copy=copy, shift=shift)
+                        except Exception as e:  # noqa
+                            ctx.v("C06", "reindexed:raised", opd, repr(e))
+                            continue
+                        _check(ctx, r, exp, opd, "reindexed")
+
+
 def parts(prop):
     """Three independent families as functions (res, tier) -> (violations of `prop`, counters)."""
     def mk(fn, label):
@@ -332,7 +354,7 @@ def parts(prop):
             return [v for v in ctx.viol if v["property"] == prop], {label: ctx.n}
         return run
     return [mk(repr_family, "representation_cases_of_entry_updates"), mk(collapse_mapping_family, "collapsed_with_mapping_cases"), mk(big_family, "wide_and_tall_index_operations"),
-            mk(numpy_length_family, "operations_after_filtered_with_a_numpy_length")]
+            mk(numpy_length_family, "operations_after_filtered_with_a_numpy_length"), mk(reindexed_merge_family, "reindexed_merging_three_or_more_values")]
 
 
 def family(res, tier, prop):
